@@ -48,6 +48,30 @@ NOTES = {
     "C19-d2": "independent period table including the case-sensitive 1M",
     "C20-d2": "concurrent waiters on the limiter's own wait()",
     "C20-d3": "one limiter for the whole Binance client (public, spot, cross, isolated)",
+    # round e
+    "C03-e2": "loans variant: several equal short-sale loans of different age, one affordable repayment",
+    "C03-e3": "one lending-strategy object handed to every run of a sweep; a requirement that bites",
+    "C04-e1": "a second, coarser feed of the same pair closing at the same instants",
+    "C04-e3": "bar prices finer than the pair's price grid (sub-tick)",
+    "C06-e1": "a rejected request must not leave a live order (C06 kind)",
+    "C06-e2": "'no order open' also judged by the get_open_orders() listing",
+    "C07-e1": "micro_c07: interest charged in a third symbol the account does not hold",
+    "C10-e2": "loans from jobs scheduled at exactly a bar's time",
+    "C10-e3": "market quoted both ways (USD/BTC next to BTC/USD)",
+    "C12-e1": "handlers suspended for seconds of virtual time",
+    "C12-e3": "producers that queue their events when main() starts",
+    "C13-e2": "plain-callable jobs returning futures / objects with __await__",
+    "C14-e1": "stop() requested before run() and again while running",
+    "C14-e2": "run() called again during and after a run",
+    "C15-e2": "catch-all handlers (front-running and regular)",
+    "C15-e3": "two sources built from one shared list of initial events",
+    "C16-e1": "process-wide random generator re-seeded between requests",
+    "C18-e1": "caller-supplied session must stay usable; reconnection-progress oracle",
+    "C18-e2": "client started without channels, first channels registered while connected",
+    "C18-e3": "frames waiting right after the handshake; reconnection-progress oracle",
+    "C19-e3": "exchange-level bar subscriptions with different options over a fake websocket",
+    "C20-e1": "monitoring reads of the tokens property between requests",
+    "C20-e3": "waiters that give up (cancelled) and retry",
 }
 
 
